@@ -248,7 +248,9 @@ PROPS = {
                 "steps with boundary parameters, end-of-word suffix x byte fallback, truncation with strides) and the 23 shipped models x texts "
                 "(corpora lines, special look-alikes, single scalar values, >192-unit runs); IMPLONLY ops: adversarial texts of 4 KiB and 32 KiB "
                 "(thorough: up to 256 KiB: long unbroken runs, whitespace runs, combining-mark runs, special look-alikes, random scalars) on "
-                "the implementation only. Decoding arbitrary ids is covered in depth by C08. Verdict: no PANIC/CRASH. Non-trivial: all.",
+                "the implementation only; every 12th generated definition gets a special token with an empty text (accepted by the "
+                "constructor, outside LoadableWF and outside the model) and is run on the implementation only. Decoding arbitrary ids is "
+                "covered in depth by C08. Verdict: no PANIC/CRASH. Non-trivial: all.",
         "trusted_base": CORE_TB + ["modelled, not verified: external regex / Unicode libraries (oracle tables); the regex engine's backtrack limit "
                                    "(fancy-regex fails on ~1 MiB whitespace runs; the property's bound of 256 KiB is inside it) is an assumption",
                                    "process death (abort, stack overflow, OOM) is observed only as a missing answer of the generator process"],
